@@ -52,6 +52,10 @@ type c05Cert struct {
 	Due     bool  `json:"due"`
 	Expired bool  `json:"expired,omitempty"` // due and past NotAfter (a sub-case of due)
 	Man     bool  `json:"man"`
+	// the cache copy of certificate Of whose in-memory ARI says "renew now" while the stored resource of the
+	// same certificate does not: for the model a distinct (due) certificate object that the stored one replaces
+	Ari bool `json:"ari,omitempty"`
+	Of  int  `json:"of,omitempty"`
 }
 
 type c05Event struct {
@@ -76,6 +80,9 @@ type c05Hist struct {
 	Cache  []int      `json:"cache"` // ids preloaded into the cache, in this order
 	Store  []int      `json:"store"` // per name: id of the stored certificate, -1 = none
 	Events []c05Event `json:"events"`
+	// the cache is bounded and full from the start (Capacity = number of preloaded certificates); no event
+	// that would add a certificate beyond that (manage) is carried out
+	Bounded bool `json:"bounded,omitempty"`
 }
 
 type c05Obs struct {
@@ -166,6 +173,8 @@ type c05World struct {
 	last     *c05Obs        // the latest observation
 	hashOf   map[int]string // cache key by certificate identity, as of the latest observation
 	ocspOrd  []int          // names in the order the running OCSP pass asked for their locks
+	aliasOf  map[int]int // identity of a certificate -> identity of its ARI-due cache copy
+	bounded  bool
 	ocspPanicked bool
 	panics   []string // panics of the code under test during the latest event (observations, not harness failures)
 }
@@ -351,7 +360,10 @@ func c05NewWorld(h *c05Hist) *c05World {
 	w.be.Log.Hook = w.hook
 	st := w.be.Handle("i1")
 	cacheLogger := zap.New(c05Core{w})
+	w.bounded = h.Bounded
+	w.aliasOf = map[int]int{}
 	w.cache = certmagic.NewCache(certmagic.CacheOptions{
+		Capacity: map[bool]int{false: 0, true: len(h.Cache)}[h.Bounded],
 		GetConfigForCert: func(c certmagic.Certificate) (*certmagic.Config, error) {
 			if len(c.Names) > 0 {
 				if i := w.nameIndex(c.Names[0]); i >= 0 && w.od[i] {
@@ -416,8 +428,12 @@ func (w *c05World) setup(h *c05Hist) error {
 	}
 	for _, id := range h.Cache {
 		c := h.Certs[id]
+		src := id
+		if c.Ari {
+			src = c.Of // the very certificate that is in storage
+		}
 		if c.Man {
-			w.putBundle(c.Head, 0, mk[id].chain, mk[id].key, w.certNames(c))
+			w.putBundle(c.Head, 0, mk[src].chain, mk[src].key, w.certNames(c))
 			cfg := w.cfg
 			if w.od[c.Head] {
 				cfg = w.cfgOD
@@ -426,6 +442,19 @@ func (w *c05World) setup(h *c05Hist) error {
 				return fmt.Errorf("preloading managed certificate %d: %v", id, err)
 			}
 			w.removeBundle(c.Head)
+			if c.Ari {
+				certs, _ := certmagic.VerifMaintainCacheSnapshot(w.cache)
+				done := false
+				for _, cc := range certs {
+					if cc.Leaf != nil && cc.Leaf.SerialNumber.Int64() == int64(101+c.Of) {
+						done = certmagic.VerifMaintainSetARISelectedTime(w.cache, cc.Hash, time.Now().Add(-time.Hour))
+					}
+				}
+				if !done {
+					return fmt.Errorf("could not mark the cache copy of certificate %d as due by ARI", c.Of)
+				}
+				w.aliasOf[c.Of] = id
+			}
 		} else {
 			if _, err := w.cfg.CacheUnmanagedCertificatePEMBytes(w.ctx, mk[id].chain, mk[id].key, nil); err != nil {
 				return fmt.Errorf("preloading unmanaged certificate %d: %v", id, err)
@@ -592,6 +621,16 @@ func (w *c05World) enabled(e c05Event) bool {
 		// two due managed certificates with the same first name in the cache: the scan queues both and the
 		// job manager keeps the first submission — which one that is (and so which certificate the job
 		// replaces in the end) depends on Go's map iteration order; the model scans in insertion order
+		// an ARI-due cache copy is modelled as a certificate object of its own, but it shares its hash with the
+		// stored certificate: two pending passes that both hold it would remove (by hash) the re-loaded copy the
+		// second time, which the model's distinct identities cannot express — one pending pass at a time then
+		if w.last != nil && len(w.passes) > 0 {
+			for _, al := range w.aliasOf {
+				if c05HasCert(w.last.Cache, al) {
+					return false
+				}
+			}
+		}
 		if w.last != nil {
 			seen := map[int]bool{}
 			for _, c := range w.last.Cache {
@@ -622,7 +661,7 @@ func (w *c05World) enabled(e c05Event) bool {
 		}
 		return true
 	case "manage":
-		if e.N >= w.k {
+		if e.N >= w.k || w.bounded {
 			return false
 		}
 		// keep jobs attributable and calls non-blocking: no synchronous call while a job for
@@ -664,6 +703,15 @@ func (w *c05World) enabled(e c05Event) bool {
 			}
 		}
 		return true
+	}
+	return false
+}
+
+func c05HasCert(l []c05Cert, id int) bool {
+	for _, c := range l {
+		if c.ID == id {
+			return true
+		}
 	}
 	return false
 }
@@ -866,6 +914,7 @@ func (w *c05World) observe() (*c05Obs, error) {
 	}
 	certs, index := certmagic.VerifMaintainCacheSnapshot(w.cache)
 	idOf := map[string]int{}
+	ariAlias := map[int]int{}
 	for _, cc := range certs {
 		if cc.Leaf == nil {
 			return nil, fmt.Errorf("cache entry without leaf")
@@ -873,6 +922,14 @@ func (w *c05World) observe() (*c05Obs, error) {
 		d, err := w.describe(cc.Leaf, cc.Managed)
 		if err != nil {
 			return nil, err
+		}
+		if cc.ARIDue {
+			alias, ok := w.aliasOf[d.ID]
+			if !ok {
+				return nil, fmt.Errorf("cache entry %d has a selected ARI time but no alias", d.ID)
+			}
+			ariAlias[d.ID] = alias
+			d.ID, d.Due = alias, true
 		}
 		idOf[cc.Hash] = d.ID
 		o.Cache = append(o.Cache, d)
@@ -957,6 +1014,9 @@ func (w *c05World) observe() (*c05Obs, error) {
 				if err == nil && tc != nil && len(tc.Certificate) > 0 {
 					if leaf, err := x509.ParseCertificate(tc.Certificate[0]); err == nil {
 						served = int(leaf.SerialNumber.Int64() - 101)
+						if al, ok := ariAlias[served]; ok {
+							served = al
+						}
 					}
 				}
 			}()
@@ -1404,8 +1464,13 @@ func c05Emit(w *emit.Writer, class string, res *c05Result) {
 	if h.IDue {
 		w.Hist("issuer_hands_out_due=true")
 	}
+	if h.Bounded {
+		w.Hist("cache=bounded-and-full")
+	}
 	for _, c := range h.Certs {
 		switch {
+		case c.Ari:
+			w.Hist("cert=cache-copy-due-by-ARI-of-the-stored-one")
 		case !c.Man:
 			w.Hist("cert=unmanaged")
 		case c.Expired:
@@ -1548,6 +1613,7 @@ type c05NameInit struct {
 	od     bool // name handled by the on-demand config
 	multi  bool // the cached certificate also lists the next name
 	unman  bool // additionally an unmanaged due certificate for the name is cached
+	ari    bool // cached = the stored (fresh) certificate, but the cache copy is due by its in-memory ARI
 }
 
 func c05Build(inits []c05NameInit, idue bool) *c05Hist {
@@ -1565,6 +1631,15 @@ func c05Build(inits []c05NameInit, idue bool) *c05Hist {
 			rest = []int{(n + 1) % len(inits)}
 		}
 		cid := -1
+		if in.ari {
+			st := add(c05Cert{Head: n, Rest: rest, Man: true})
+			h.Store[n] = st
+			h.Cache = append(h.Cache, add(c05Cert{Head: n, Rest: rest, Due: true, Man: true, Ari: true, Of: st}))
+			if in.unman {
+				h.Cache = append(h.Cache, add(c05Cert{Head: n, Due: true, Man: false}))
+			}
+			continue
+		}
 		if in.cached > 0 {
 			cid = add(c05Cert{Head: n, Rest: rest, Due: in.cached >= 2, Expired: in.cached == 3, Man: true})
 			h.Cache = append(h.Cache, cid)
@@ -1793,6 +1868,41 @@ func c05Scenarios() []c05Scenario {
 				c05Cat(one(c05Ev("issuer", 0, 1, 1)), one(c05Ev("manage", 0, async)), drain(0), pass(0), drain(0), pass(1))})
 		}
 	}
+	// --- a pass reloads the IDENTICAL certificate: the cache copy is due by its in-memory ARI, the stored resource of
+	// the same certificate is not ("already renewed in storage; reloading"): afterwards it must still be cached and
+	// answer for all its names
+	for _, multi := range []bool{false, true} {
+		for _, bounded := range []bool{false, true} {
+			base := []c05NameInit{{ari: true, multi: multi}, {cached: 1, stored: 1}, {cached: 2, stored: 1}, {ari: true, od: true}}
+			mk := func() *c05Hist { h := c05Build(base, false); h.Bounded = bounded; return h }
+			id0 := mk().Cache[0]
+			out = append(out,
+				c05Scenario{"reload-identical", mk(), c05Cat(pass(0), drain(2), pass(1), drain(2), pass(2))},
+				c05Scenario{"reload-identical-overlapping", mk(), c05Cat(one(c05Ev("scan", 0)), one(c05Ev("scan", 1)), one(c05Ev("act", 0)), one(c05Ev("act", 1)), drain(2), pass(2))},
+				c05Scenario{"reload-identical-external-between", mk(), c05Cat(one(c05Ev("scan", 0)), one(c05Ev("extb", 0)), one(c05Ev("act", 0)), drain(2), pass(1))},
+				c05Scenario{"reload-identical-issuer-fails", mk(), c05Cat(one(c05Ev("issuer", 0, 1)), one(c05Ev("issuer", 2, 1)), pass(0), c05Rep(c05Ev("job", 2), 3), pass(1))},
+				c05Scenario{"reload-identical-revoked", mk(), c05Cat(one(c05Ev("revoke", id0)), pass(0), one(c05Ev("ocsp")), drain(2), pass(1))},
+			)
+		}
+	}
+	// --- a bounded, full cache: renewals and adoptions replace in place and must not push anything else out
+	for _, age := range []int{2, 3} {
+		for _, stored := range []int{1, 2, 3} {
+			for _, idue := range []bool{false, true} {
+				if idue && stored == 2 {
+					continue
+				}
+				base := []c05NameInit{{cached: age, stored: stored, multi: true}, {cached: 1, stored: 1}, {cached: 2, stored: 2}, {cached: 1, stored: 1, unman: true}}
+				mk := func() *c05Hist { h := c05Build(base, idue); h.Bounded = true; return h }
+				tag := fmt.Sprintf("age%d-stored%d", age, stored)
+				out = append(out,
+					c05Scenario{"bounded-pass/" + tag, mk(), c05Cat(pass(0), drain(0), pass(1), drain(0), pass(2))},
+					c05Scenario{"bounded-external/" + tag, mk(), c05Cat(pass(0), one(c05Ev("extb", 0)), drain(0), one(c05Ev("ext", 1)), pass(1), drain(0), pass(2))},
+					c05Scenario{"bounded-failover/" + tag, mk(), c05Cat(one(c05Ev("issuer", 0, 1, 1)), pass(0), drain(0), pass(1), drain(0), pass(2))},
+				)
+			}
+		}
+	}
 	// --- revocation: "keeps being served as long as it has not been revoked"
 	cachedID := func(h *c05Hist, head int) int {
 		for _, id := range h.Cache {
@@ -1849,7 +1959,10 @@ func c05RandomInit(r *rand.Rand, maxNames int) *c05Hist {
 		in.od = r.Intn(6) == 0
 		in.multi = r.Intn(5) == 0
 		in.unman = r.Intn(6) == 0
+		in.ari = r.Intn(7) == 0
 	}
+	// (bounded caches only in scripted histories: a random one can legitimately overflow — a job reloading for a
+	// certificate that has left the cache adds without removing — and then evicts a random certificate)
 	return c05Build(inits, r.Intn(5) == 0)
 }
 
